@@ -136,7 +136,10 @@ pub fn bnd_c08() {
 // ------------------------------------------------------------------------------------------------------------------------------
 // C13: output does not depend on the source formatting of collapsible white space.
 // `\u{2423}` marks a run of collapsible white space in an inline context, `\u{b6}` one between block elements.
-const C13_DOCS: [&str; 10] = [
+const C13_DOCS: [&str; 13] = [
+    "<div>alpha\u{2423}beta<p>para</p></div>",
+    "<div><p>first</p>\u{b6}gamma\u{2423}<em>delta</em>\u{2423}eps</div>",
+    "<blockquote>one\u{2423}two<ul>\u{b6}<li>item</li>\u{b6}</ul>three\u{2423}four</blockquote>",
     "<p>Hello\u{2423}world\u{2423}foo</p>",
     "<p>Hello\u{2423}<em>big\u{2423}world</em>\u{2423}end</p>",
     "<p><b>Name:</b>\u{2423}<i>value</i></p>",
@@ -167,7 +170,7 @@ fn subst(doc: &str, which: Option<usize>, inline_alt: &str, block_alt: &str) -> 
 
 pub fn bnd_c13() {
     let widths: Vec<usize> = if thorough() { (1..=100).collect() } else { (1..=30).chain([40, 60, 80, 100]).collect() };
-    let mut rep = Report::new("bnd_c13", &format!("10 table-free, pre-free documents; each collapsible white-space run replaced (one at a time and all at once) by 9 inline / 6 block-level \
+    let mut rep = Report::new("bnd_c13", &format!("13 table-free, pre-free documents; every word wrapped in a span; each collapsible white-space run replaced (one at a time and all at once) by 9 inline / 6 block-level \
         alternatives (newlines, tabs, runs, adjacent comments, a span around the white space, an empty span); {} widths; plain decorator", widths.len()));
     for doc in C13_DOCS {
         let nmark = doc.chars().filter(|&c| c == '\u{2423}' || c == '\u{b6}').count();
@@ -176,6 +179,17 @@ pub fn bnd_c13() {
         for ia in INLINE_ALTS { variants.push(subst(doc, None, ia, "\n")); }
         for ba in BLOCK_ALTS { variants.push(subst(doc, None, " ", ba)); }
         for k in 0..nmark { for ia in INLINE_ALTS { for ba in [BLOCK_ALTS[0], BLOCK_ALTS[4]] { variants.push(subst(doc, Some(k), ia, ba)); } } }
+        // the span-wrapping rewrite applied to every word: <span>word</span>
+        {
+            let mut o = String::new(); let mut intag = false; let mut word = String::new();
+            for ch in base.chars() {
+                if !intag && ch.is_ascii_alphanumeric() { word.push(ch); continue; }
+                if !word.is_empty() { o.push_str(&format!("<span>{}</span>", word)); word.clear(); }
+                if ch == '<' { intag = true; } else if ch == '>' { intag = false; }
+                o.push(ch);
+            }
+            variants.push(o);
+        }
         variants.sort(); variants.dedup();
         for &w in &widths {
             let b = base.clone();
@@ -243,7 +257,7 @@ pub fn bnd_c18() {
     let nh = sk.iter().filter(|p| p.is_err()).count();
     let max_hidden = if thorough() { 4 } else { 3 };
     let mut rep = Report::new("bnd_c18", &format!("one skeleton document with {} hideable elements (p, li, a, span, b, h2, p in blockquote, tr, table; several carrying ids); every subset of at most {} of them \
-        hidden by `.h{{display:none;}}` (and, for single elements, by an inline style with document CSS enabled); widths 20/40/80; rich lines (fragment markers visible) and plain string with footnotes", nh, max_hidden));
+        hidden by `.h{{display:none;}}` (and, for single elements, by an inline style with document CSS enabled); widths 20/40/80; rich lines (fragment markers visible) and plain string with footnotes; plus 7 documents hidden through structural selectors (child/descendant combinators with nested candidates, nth-child, id, selector list, universal)", nh, max_hidden));
     let mut subsets: Vec<Vec<usize>> = vec![];
     for a in 0..nh { subsets.push(vec![a]); for b in a + 1..nh { subsets.push(vec![a, b]); if max_hidden >= 3 { for c in b + 1..nh { subsets.push(vec![a, b, c]); if max_hidden >= 4 { for d in c + 1..nh { subsets.push(vec![a, b, c, d]); } } } } } }
     for hs in &subsets { for inline_style in [false, true] {
@@ -297,6 +311,27 @@ pub fn bnd_c18() {
             let r = panic::catch_unwind(move || (config::plain().string_from_read(h3.as_bytes(), 40).ok(), config::plain().string_from_read(plain_doc.as_bytes(), 40).ok()));
             if let Ok((a, b)) = r { if a != b { rep.found(&input, "a style attribute changed the output although document CSS is not enabled"); } }
         }
+    }}
+    // hidden by structural selectors (combinators, nth-child) instead of a class on the element itself
+    let structural: [(&str, &str, &str); 7] = [
+        (".o > .m .t{display:none;}", "<div class=\"o\"><div class=\"m\">a <div class=\"m\">b <span class=\"t\">T</span> c</div> d</div></div>", "<div class=\"o\"><div class=\"m\">a <div class=\"m\">b  c</div> d</div></div>"),
+        ("ul > li span{display:none;}", "<ul><li>a <ul><li>b <span>T</span> c</li></ul></li></ul>", "<ul><li>a <ul><li>b  c</li></ul></li></ul>"),
+        ("div p:nth-child(2){display:none;}", "<div><p>one</p><p>two</p><p>three</p></div>", "<div><p>one</p><p>three</p></div>"),
+        ("#top > div em{display:none;}", "<div id=\"top\"><div>a <em>T</em> b</div><p>c <em>keep</em></p></div>", "<div id=\"top\"><div>a  b</div><p>c <em>keep</em></p></div>"),
+        ("li.x, h2{display:none;}", "<ul><li class=\"x\">T1</li><li>keep</li></ul><h2>T2</h2><p>after</p>", "<ul><li>keep</li></ul><p>after</p>"),
+        ("blockquote *{display:none;}", "<blockquote>q <b>T</b> r <i>U</i></blockquote><p><b>keep</b></p>", "<blockquote>q  r </blockquote><p><b>keep</b></p>"),
+        ("table td.h{display:none;}", "<table><tr><td>c1</td><td class=\"h\">T</td><td>c3</td></tr></table>", "<table><tr><td>c1</td><td>c3</td></tr></table>"),
+    ];
+    for (css, hid, del) in structural { for width in [10usize, 20, 40] {
+        let input = format!("width={} css={} html={}", width, css, hid);
+        rep.case(&input);
+        let (c, h1, d1) = (css.to_string(), hid.to_string(), del.to_string());
+        let r = panic::catch_unwind(move || {
+            let a = config::rich().add_css(&c).unwrap().lines_from_read(h1.as_bytes(), width).map(|l| lines_dbg(&l)).map_err(|e| format!("{:?}", e));
+            let b = config::rich().lines_from_read(d1.as_bytes(), width).map(|l| lines_dbg(&l)).map_err(|e| format!("{:?}", e));
+            (a, b)
+        });
+        match r { Err(_) => rep.found(&input, "panic"), Ok((a, b)) => if a != b { rep.found(&input, &format!("differs from the rendering of {:?}: {:?} vs {:?}", del, a, b)); } }
     }}
     rep.finish();
 }
@@ -674,27 +709,30 @@ fn gen_inline(r: &mut Lcg, tok: &mut u32, depth: u32) -> String {
             2 => s.push_str(&format!("verylongword{}abcdefghij ", tok)),
             3 => s.push_str(&format!("<a href=\"{}{}\">lk{}</a> ", if r.below(3) == 0 { "http://x/\u{4e2d}\u{6587}\u{5b57}" } else { "h" }, tok, tok)),
             4 => s.push_str(&format!("x{}<br>", tok)),
+            5 => s.push_str(&format!("s{}<sup>up {}</sup> ", tok, tok)),
             _ => s.push_str(&format!("w{} ", tok)),
         }
     }
     s
 }
-fn gen_block(r: &mut Lcg, tok: &mut u32, depth: u32) -> String {
-    let b = gen_block0(r, tok, depth);
+// returns the html and P, the largest total width of block prefixes on any nesting chain of the block (C11)
+fn gen_block_p(r: &mut Lcg, tok: &mut u32, depth: u32) -> (String, usize) {
+    let (b, p) = gen_block0(r, tok, depth);
     // some blocks and list items carry an id (fragment markers must not disturb anything)
-    if r.below(4) == 0 { *tok += 1; let id = format!(" id=\"i{}\"", tok); if let Some(p) = b.find('>') { let mut o = b.clone(); o.insert_str(p, &id); return o.replacen("<li>", &format!("<li id=\"j{}\">", tok), 1).replacen("<dd>", &format!("<dd id=\"k{}\">", tok), 1); } }
-    b
+    if r.below(4) == 0 { *tok += 1; let id = format!(" id=\"i{}\"", tok); if let Some(q) = b.find('>') { let mut o = b.clone(); o.insert_str(q, &id); return (o.replacen("<li>", &format!("<li id=\"j{}\">", tok), 1).replacen("<dd>", &format!("<dd id=\"k{}\">", tok), 1), p); } }
+    (b, p)
 }
-fn gen_block0(r: &mut Lcg, tok: &mut u32, depth: u32) -> String {
+fn gen_block(r: &mut Lcg, tok: &mut u32, depth: u32) -> String { gen_block_p(r, tok, depth).0 }
+fn gen_block0(r: &mut Lcg, tok: &mut u32, depth: u32) -> (String, usize) {
     match r.below(if depth < 2 { 9 } else { 4 }) {
-        0 | 1 => format!("<p>{}</p>", gen_inline(r, tok, 0)),
-        2 => format!("<h{}>{}</h{}>", 1 + depth, gen_inline(r, tok, 1), 1 + depth),
-        3 => { *tok += 1; format!("<pre>p{}  q{}\n\tr{}</pre>", tok, tok, tok) }
-        4 => { let mut s = String::from("<ul>"); for _ in 0..1 + r.below(3) { s.push_str(&format!("<li>{}{}</li>", gen_inline(r, tok, 1), if r.below(3) == 0 { gen_block(r, tok, depth + 1) } else { String::new() })); } s + "</ul>" }
-        5 => { let mut s = format!("<ol start=\"{}\">", r.below(12)); for _ in 0..1 + r.below(3) { s.push_str(&format!("<li>{}</li>", gen_inline(r, tok, 1))); } s + "</ol>" }
-        6 => format!("<blockquote>{}{}</blockquote>", gen_inline(r, tok, 1), gen_block(r, tok, depth + 1)),
-        7 => format!("<div>{}{}</div>", gen_block(r, tok, depth + 1), gen_block(r, tok, depth + 1)),
-        _ => format!("<dl><dt>{}</dt><dd>{}</dd></dl>", gen_inline(r, tok, 1), gen_inline(r, tok, 1)),
+        0 | 1 => (format!("<p>{}</p>", gen_inline(r, tok, 0)), 0),
+        2 => (format!("<h{}>{}</h{}>", 1 + depth, gen_inline(r, tok, 1), 1 + depth), 2 + depth as usize),
+        3 => { *tok += 1; (format!("<pre>p{}  q{}\n\tr{}</pre>", tok, tok, tok), 0) }
+        4 => { let mut s = String::from("<ul>"); let mut p = 0; for _ in 0..1 + r.below(3) { let inl = gen_inline(r, tok, 1); let (nb, np) = if r.below(3) == 0 { gen_block_p(r, tok, depth + 1) } else { (String::new(), 0) }; p = p.max(np); s.push_str(&format!("<li>{}{}</li>", inl, nb)); } (s + "</ul>", 2 + p) }
+        5 => { let st = r.below(12); let n = 1 + r.below(3); let mut s = format!("<ol start=\"{}\">", st); for _ in 0..n { s.push_str(&format!("<li>{}</li>", gen_inline(r, tok, 1))); } (s + "</ol>", format!("{}. ", st).len().max(format!("{}. ", st + n - 1).len())) }
+        6 => { let inl = gen_inline(r, tok, 1); let (nb, np) = gen_block_p(r, tok, depth + 1); (format!("<blockquote>{}{}</blockquote>", inl, nb), 2 + np) }
+        7 => { let (a, pa) = gen_block_p(r, tok, depth + 1); let (b2, pb) = gen_block_p(r, tok, depth + 1); (format!("<div>{}{}</div>", a, b2), pa.max(pb)) }
+        _ => (format!("<dl><dt>{}</dt><dd>{}</dd></dl>", gen_inline(r, tok, 1), gen_inline(r, tok, 1)), 2),
     }
 }
 pub fn bnd_doc() {
@@ -702,13 +740,14 @@ pub fn bnd_doc() {
     use unicode_width::UnicodeWidthStr;
     let (ndoc, maxw) = if thorough() { (1500u32, 40usize) } else { (300u32, 24usize) };
     let mut rep = Report::new("bnd_doc", &format!("{} seeded table-free documents (p, h1-h3, pre, ul, ol, blockquote, div, dl nested to depth 3; words, wide characters, over-long words, links with ASCII and wide-character targets, br, nested inline elements, ids on blocks and list items), widths 1..={}: \
-        plain: no panic, every line within the width unless an error is returned (C02); with link footnotes at widths >= 2: lines within the width (C02); with allow_width_overflow: always Ok and the same text when the strict rendering is Ok (C11); \
+        plain: no panic, every line within the width unless an error is returned (C02); with link footnotes at widths >= 2: lines within the width (C02); with allow_width_overflow: always Ok, the same text when the strict rendering is Ok, and no line wider than max(width, deepest prefix chain + 5) (C11); \
         trivial decorator: the non-space characters of the output are exactly those of the document text, in order (C03, C16)", ndoc, maxw));
     let mut r = Lcg(0x2545f4914f6cdd1d ^ seed());
     for _ in 0..ndoc {
         let mut tok = 0;
         let mut html = String::new();
-        for _ in 0..1 + r.below(3) { html.push_str(&gen_block(&mut r, &mut tok, 0)); }
+        let mut pmax = 0usize;
+        for _ in 0..1 + r.below(3) { let (b, p) = gen_block_p(&mut r, &mut tok, 0); html.push_str(&b); pmax = pmax.max(p); }
         let text: String = { let mut o = String::new(); let mut intag = false; for ch in html.chars() { if ch == '<' { intag = true; } else if ch == '>' { intag = false; } else if !intag && !ch.is_whitespace() { o.push(ch); } } o };
         for w in 1..=maxw {
             if w == 1 && html.contains("http://x/") { continue; }     // keeps clear of the recorded finding D13 (footnote of a wide-character target at width 1)
@@ -721,7 +760,12 @@ pub fn bnd_doc() {
             match panic::catch_unwind(move || config::plain().allow_width_overflow().string_from_read(h.as_bytes(), w)) {
                 Err(_) => { rep.found(&input, "panic (allow_width_overflow)"); continue; }
                 Ok(Err(e)) => { rep.found(&input, &format!("error {:?} although width overflow is allowed", e)); continue; }
-                Ok(Ok(o)) => if let Some(s) = &strict { if *s != o { rep.found(&input, &format!("allow_width_overflow changed a rendering that fits: {:?} vs {:?}", s, o)); continue; } },
+                Ok(Ok(o)) => {
+                    if let Some(s) = &strict { if *s != o { rep.found(&input, &format!("allow_width_overflow changed a rendering that fits: {:?} vs {:?}", s, o)); continue; } }
+                    // the overflow bound of the property: the deepest chain of block prefixes plus the 5 columns the layout reserves at least
+                    let bound = w.max(pmax + 5);
+                    if let Some(l) = o.lines().find(|l| UnicodeWidthStr::width(*l) > bound) { rep.found(&input, &format!("with overflow allowed, line {:?} is {} columns wide; bound max(width, P + 5) = {} with P = {}", l, UnicodeWidthStr::width(l), bound, pmax)); continue; }
+                }
             }
             if w >= 2 {
                 let h = html.clone();
@@ -906,7 +950,7 @@ pub fn bnd_c15() {
         if i % 2 == 0 { for _ in 0..1 + r.below(2) { html.push_str(&gen_block(&mut r, &mut tok, 0)); } html.push_str("<p>a <s>struck text</s> b</p>"); }
         else {
             html.push_str("<table>");
-            for _ in 0..1 + r.below(3) { html.push_str("<tr>"); for _ in 0..2 { tok += 1; if r.below(2) == 0 { html.push_str(&format!("<td>c{} <a href=\"http://h/{}\">link{}</a> t</td>", tok, tok, tok)); } else { html.push_str(&format!("<td>cell{} words here</td>", tok)); } } html.push_str("</tr>"); }
+            for _ in 0..1 + r.below(3) { html.push_str("<tr>"); for _ in 0..2 { tok += 1; if r.below(2) == 0 { html.push_str(&format!("<td>c{} <a href=\"http://h/{}\">link{}</a> t</td>", tok, tok, tok)); } else if r.below(3) == 0 { html.push_str(&format!("<td>cell{} with a much longer run of words than any width used here so that estimates exceed the width</td>", tok)); } else { html.push_str(&format!("<td>cell{} words here</td>", tok)); } } html.push_str("</tr>"); }
             html.push_str("</table><p>after <a href=\"u\">l</a></p>");
         }
         for w in (8..=40usize).step_by(4) {
